@@ -14,7 +14,7 @@ LEAN_MODULES = ["Props.C20"]
 RULE = (
     "case = (register type with 0-5 user-defined properties over mixed field kinds, names chosen to sort before / "
     "between / after the framework's own property names (in about a third of the cases a caller first edits IN PLACE the lists that custom_properties handed out earlier - remove / append / clear / reverse / sort / overwrite - for the type asked for or for every type: what the library hands out is the caller's to change and leaves nothing behind); a subclass, a second subclass that adds a property of its own and overrides the first inherited one, and an unrelated type (in four cases out of ten the views of the other types are asked for first); a file with 0-10 "
-    "registers of the type interleaved with other types and free-text lines; None in any position). Observed on the "
+    "registers of the type interleaved with other types and free-text lines; None in any position; in four cases out of ten the file held 1-3 MORE registers earlier - fresh ones or value-for-value copies of registers that stay - which were taken out again with RegisterData.remove after the view / of_type / get_registers_of_type had been asked: the view follows the registers the file holds NOW, whatever was there or was asked before). Observed on the "
     "real code: Register.custom_properties, list(df.columns), df.shape[0], every cell (null-aware, numbers as "
     "doubles), and - after overwriting every cell of the frame - whether the registers' data is unchanged. Judged by "
     "Spec.C20.holds (columns = sorted user properties without the framework's; one row per register of the type in "
@@ -60,13 +60,21 @@ def build(case):
     K4 = type("K4", (K0,), k4)
     classes = [K0, K1, K2, None, K4]
     data = RegisterData(DefaultRegister(data=""))
-    regs = []
-    for c, vals in case["regs"]:
+    def mkreg(c, vals):
         if c == 3:
-            r = DefaultRegister(data="free text\n")
-        else:
-            r = classes[c](data=[codec.dec_val(v) for v in vals])
-        regs.append(r)
+            return DefaultRegister(data="free text\n")
+        return classes[c](data=[codec.dec_val(v) for v in vals])
+
+    final = [mkreg(c, vals) for c, vals in case["regs"]]
+    # registers the file held EARLIER and that are taken out again below (case["gone"]["regs"]: [position in
+    # the final sequence before which it stood, class, values])
+    gone = case.get("gone") or {}
+    extra = [(min(max(int(p), 0), len(final)), mkreg(c, vals)) for p, c, vals in gone.get("regs", [])]
+    regs = []
+    for i in range(len(final) + 1):
+        regs += [r for p, r in extra if p == i]
+        if i < len(final):
+            regs.append(final[i])
     route = case.get("route", "append")
     if route == "append" or len(regs) < 3:
         for r in regs:
@@ -84,7 +92,34 @@ def build(case):
             else:
                 data.add_before(regs[-1], r)  # before the register that followed the previous insertion
             prev = r
-    return classes, RegisterFile(data=data), regs
+    f = RegisterFile(data=data)
+    if extra:
+        # the earlier state of the file was looked at (or not), then the extra registers were removed one by
+        # one - the registers that stay, and their order, are exactly case["regs"]
+        t = classes[case["type"]] if case["type"] != 3 else DefaultRegister
+        asked = gone.get("asked", "view")
+        out = [r for _, r in extra]
+        if gone.get("order") == "backwards":
+            out.reverse()
+        for k, r in enumerate(out):
+            if k == 0 or gone.get("again"):
+                ask(f, t, asked)
+            data.remove(r)
+    return classes, f, final
+
+
+def ask(f, t, how):
+    """one of the public ways of asking a file for the registers of a type"""
+    if how == "view":
+        f._as_df(t)
+    elif how == "of_type":
+        for _ in f.data.of_type(t):
+            pass
+    elif how == "getter":
+        f.data.get_registers_of_type(t)
+    elif how == "all_types":
+        for c in list(dict.fromkeys(type(r) for r in f.data)):
+            f._as_df(c)
 
 
 def enc_cell(x):
@@ -196,7 +231,7 @@ def view_vs_registers(f, t):
     """[view as (columns, cells)] and the same table taken directly from the registers of the type"""
     df = f._as_df(t)
     got = [[codec.enc_str(str(c)) for c in df.columns], [[enc_cell(df.iloc[i, j]) for j in range(df.shape[1])] for i in range(int(df.shape[0]))]]
-    regs = list(f.data.of_type(t))
+    regs = [r for r in f.data if isinstance(t, type) and isinstance(r, t)]  # the chain itself, in file order
     # the columns are the user-defined properties of the TYPE asked for (not of whichever class the first
     # register happens to have: registers of a derived type that adds properties are registers of the type too)
     cols = t().custom_properties if regs and isinstance(t, type) else []
@@ -272,6 +307,8 @@ def features(case, obs):
         f.append("other_type_interleaved")
     if case.get("edit"):
         f.append(f"returned_list_edited={case['edit']['how']}/{case['edit']['who']}")
+    if case.get("gone"):
+        f.append(f"registers_removed_earlier={len(case['gone']['regs'])}/asked={case['gone'].get('asked')}")
     if isinstance(obs, dict) and "nrows" in obs:
         f.append("empty_view" if obs["nrows"] == 0 else "non_empty_view")
     return f
@@ -329,6 +366,19 @@ def random_case(rng):
             if r[0] != 3:
                 r[1] = [None] * len(r[1])
     case = {"props": props, "regs": regs, "type": t, "route": rng.choice(["append", "append", "insertions"]), "warm": rng.random() < 0.4}
+    if rng.random() < 0.4:
+        # the file held more registers earlier: fresh ones, or copies (same class, same values) of registers
+        # that stay - a record entered twice, one entry deleted again
+        extra = []
+        for _ in range(rng.randrange(1, 4)):
+            pos = rng.randrange(0, len(regs) + 1)
+            if regs and rng.random() < 0.6:
+                c, vals = rng.choice(regs)
+                extra.append([pos, c, list(vals)])
+            else:
+                c = rng.choice([0, 0, 1, 2, 3, 4])
+                extra.append([pos, c, [] if c == 3 else [rand_val(rng, kinds[i]) for i in range(len(kinds))]])
+        case["gone"] = {"regs": extra, "asked": rng.choice(["view", "view", "of_type", "getter", "all_types", "none"]), "order": rng.choice(["forwards", "backwards"]), "again": rng.random() < 0.5}
     if rng.random() < 0.35:
         case["edit"] = {"how": rng.choice(EDITS), "who": rng.choice(["type", "type", "all"])}
     return case
@@ -364,8 +414,19 @@ def cases_of(chunk):
 
 def shrinks(case):
     r = case["regs"]
+    g = case.get("gone")
     for i in range(len(r)):
-        yield {**case, "regs": r[:i] + r[i + 1 :]}
+        c2 = {**case, "regs": r[:i] + r[i + 1 :]}
+        if g:
+            c2["gone"] = {**g, "regs": [[p - 1 if p > i else p, c, v] for p, c, v in g["regs"]]}
+        yield c2
+    if g:
+        yield {k: v for k, v in case.items() if k != "gone"}
+        for i in range(len(g["regs"])):
+            if len(g["regs"]) > 1:
+                yield {**case, "gone": {**g, "regs": g["regs"][:i] + g["regs"][i + 1 :]}}
+        if g.get("again"):
+            yield {**case, "gone": {**g, "again": False}}
     p = case["props"]
     for i in range(len(p)):
         yield {**case, "props": p[:i] + p[i + 1 :]}
